@@ -645,14 +645,21 @@ def actual_provenance(ctx):
                         if a[0] == "param" and a[1] - 1 < len(ct["args"]):
                             kinds |= kind_of_operand(cv, ct["args"][a[1] - 1])
                     kinds |= kind_of_operand(b, kop) & {"Build", "Service"}
-                    idiom, why = _classify_ok_site(r, cv, cbb, st, msg_kinds=kinds, actual=(const_val(aop) if aop else None))
+                    act = bound_const(b, aop, cv, ct)
+                    idiom, why = _classify_ok_site(r, cv, cbb, st, msg_kinds=kinds, actual=act)
                     ci = f"{inst}/via@{short(cv.name)}"
                     if idiom == "I2":
-                        ctx.check(is_const(aop, "false"), ci, [site(b, bb), site(cv, cbb)], "a foreign-kind reply claims an actual build/service", props=["C11"])
+                        ctx.check(act == "false", ci, [site(b, bb), site(cv, cbb)], "a foreign-kind reply claims an actual build/service", props=["C11"])
                     elif idiom == "I1":
-                        ctx.check(is_const(aop, "true"), ci, [site(b, bb), site(cv, cbb)], "a target's own announcement does not say `actual: true`: a requested service would not keep zinoma alive", props=["C11"])
+                        ctx.check(act == "true", ci, [site(b, bb), site(cv, cbb)], "a target's own announcement does not say `actual: true`: a requested service would not keep zinoma alive", props=["C11"])
                     elif idiom == "I3":
-                        ok, why3 = _some_dependency_actual(r, b, aop, cv, ct)
+                        # `actual` computed by the helper from its parameters, or handed to it ready-made by the caller
+                        pa = [a for a in b.prov.operand_atoms(aop, interproc=False) if a[0] == "param"] if aop is not None else []
+                        plain = aop is not None and not [a for a in b.prov.operand_atoms(aop, interproc=False) if a[0] in ("callres", "field", "binop", "unop")]
+                        if len(pa) == 1 and plain and pa[0][1] - 1 < len(ct["args"]):
+                            ok, why3 = _some_dependency_actual(r, cv, ct["args"][pa[0][1] - 1], cv)
+                        else:
+                            ok, why3 = _some_dependency_actual(r, b, aop, cv, ct)
                         ctx.check(ok, ci, [site(b, bb), site(cv, cbb)], "an aggregate's `actual` is not 'some dependency reported an actual build/service of this kind': " + why3, props=["C11", "C20"])
                 continue
             idiom, why = classify_ok_site(r, b, bb, st)
